@@ -314,11 +314,19 @@ def gen_prog_case(rng):
 
 def gen_guard_case(rng):
     """the suite's local-guard scenario on generated programs: the guard is named after the variable, the handler sets it at
-    the first load it sees; every later load of that variable, in every scope of the module, must be skipped"""
-    extra = [{"events": ["load_name"], "pred": {"kind": "true"}, "guard": {"by": "id"}, "sets_guard": True}]
+    the first load it sees; every later load of that variable, in every scope of the module, must be skipped - also by a
+    second handler of the same event that names the same guard (it comes later in the same delivery)"""
+    hs = [{"events": ["load_name"], "pred": {"kind": "true"}, "guard": {"by": "id"}, "sets_guard": True}]
     if rng.random() < 0.5:
-        extra.append({"events": ["after_binop", "after_int"], "pred": gen_node_pred(rng)})
-    return {"src": rc.gen_program(rng), "tracers": [{"handlers": extra, "guards": False}], "reference": ["load_name", "after_binop", "after_int"], "export": False, "guard_case": True}
+        hs.append({"events": ["load_name"], "pred": gen_node_pred(rng) if rng.random() < 0.5 else {"kind": "true"}, "guard": {"by": "id"}, "sets_guard": rng.random() < 0.3})
+        if rng.random() < 0.5:
+            hs.reverse()
+    if rng.random() < 0.5:
+        hs.append({"events": ["after_binop", "after_int"], "pred": gen_node_pred(rng)})
+    for h in hs:
+        if h.get("guard") and h["pred"].get("kind") != "true":
+            h["pred"]["dynamic"] = True if "dynamic" in h["pred"] else h["pred"].get("dynamic")
+    return {"src": rc.gen_program(rng), "tracers": [{"handlers": hs, "guards": False}], "reference": ["load_name", "after_binop", "after_int"], "export": False, "guard_case": True}
 
 
 def prog_oracle(c, im):
@@ -334,40 +342,41 @@ def prog_oracle(c, im):
         by_pos.setdefault(json.dumps([type(n).__name__, getattr(n, "lineno", None), getattr(n, "col_offset", None), getattr(n, "end_lineno", None), getattr(n, "end_col_offset", None)]), n)
     ref = im["ref"]
     allh = [(ti, hi, h) for ti, t in enumerate(c["tracers"]) for hi, h in enumerate(t["handlers"])]
-    seen_names = set()
-    for ti, t in enumerate(c["tracers"]):
-        for hi, h in enumerate(t["handlers"]):
-            got = [r[:2] for r in im["streams"][ti] if len(r) > 3 and r[3] == hi]
-            want, want_char = [], []
-            first = set()
-            for r in ref:
-                if r[0] not in h["events"] or r[1] is None:
-                    continue
-                node = by_pos.get(json.dumps(r[1]))
-                if node is None:
-                    continue
-                m = node_meaning(h["pred"], node)
-                if h.get("guard"):
-                    # skipped exactly while the name is set: set at the first load the handler sees
-                    key = getattr(node, "id", None)
-                    if key in first:
-                        m = False
-                    elif m:
-                        first.add(key)
-                # BaseTracer itself registers unconditional helper handlers on these events: they count as "another handler of the event"
-                some = r[0] in INTERNAL or any(r[0] in h2["events"] and node_meaning(h2["pred"], node) for _, _, h2 in allh)
-                if m:
-                    want.append(r[:2])
-                if some and (node_static(h["pred"]) or m):
-                    want_char.append(r[:2])
-            got = [g for g in got if g[1] is not None]
-            if got != want:
-                shared = sum(1 for _, _, h2 in allh if set(h2["events"]) & set(h["events"])) > 1 or bool(set(h["events"]) & INTERNAL)
-                region = node_static(h["pred"]) and shared and got == want_char
-                i = next((k for k in range(max(len(got), len(want))) if (got[k] if k < len(got) else None) != (want[k] if k < len(want) else None)), 0)
-                return {"what": "handler %d of tracer %d was invoked for %d occurrences, its condition selects %d (first difference at %d)" % (hi, ti, len(got), len(want), i),
-                        "observed": got[i] if i < len(got) else None, "expected": want[i] if i < len(want) else None, "kind": "static-shared" if region else "exact",
-                        "handler": h}
+    want = {(ti, hi): [] for ti, hi, _ in allh}
+    want_char = {(ti, hi): [] for ti, hi, _ in allh}
+    set_names = set()          # local guard names currently set in the module (a handler with sets_guard sets its own at each call)
+    for r in ref:
+        if r[1] is None:
+            continue
+        node = by_pos.get(json.dumps(r[1]))
+        if node is None:
+            continue
+        # BaseTracer itself registers unconditional helper handlers on these events: they count as "another handler of the event"
+        some = r[0] in INTERNAL or any(r[0] in h2["events"] and node_meaning(h2["pred"], node) for _, _, h2 in allh)
+        for ti, hi, h in allh:          # delivery order: stack order, then definition order
+            if r[0] not in h["events"]:
+                continue
+            m = node_meaning(h["pred"], node)
+            gname = getattr(node, "id", None) if h.get("guard") else None
+            if gname is not None and gname in set_names:
+                continue                # skipped exactly while the name is set
+            if m:
+                want[(ti, hi)].append(r[:2])
+                if h.get("sets_guard") and gname is not None:
+                    set_names.add(gname)
+            if some and (node_static(h["pred"]) or m):
+                want_char[(ti, hi)].append(r[:2])
+    for ti, hi, h in allh:
+        got = [r[:2] for r in im["streams"][ti] if len(r) > 3 and r[3] == hi and r[1] is not None]
+        w = want[(ti, hi)]
+        if got != w:
+            shared = sum(1 for _, _, h2 in allh if set(h2["events"]) & set(h["events"])) > 1 or bool(set(h["events"]) & INTERNAL)
+            region = node_static(h["pred"]) and shared and got == want_char[(ti, hi)] and not any(h2.get("guard") for _, _, h2 in allh)
+            i = next((k for k in range(max(len(got), len(w))) if (got[k] if k < len(got) else None) != (w[k] if k < len(w) else None)), 0)
+            return {"what": "handler %d of tracer %d was invoked for %d occurrences, its condition%s selects %d (first difference at %d)"
+                    % (hi, ti, len(got), " and local guard" if h.get("guard") else "", len(w), i),
+                    "observed": got[i] if i < len(got) else None, "expected": w[i] if i < len(w) else None, "kind": "static-shared" if region else "exact",
+                    "handler": h}
     return None
 
 
